@@ -301,6 +301,49 @@ def discover(facts, rel):
             if kind in ('release', 'release_all'):
                 for m in s:
                     own[m].add('%s: %s' % (fn, pp(node)[:70]))
+    # a member container handed to a function that releases every element of the container it is given (deleteEntries(m_cacheVector))
+    releasing_params = {}
+    for k, a in lib_functions(facts):
+        for c in calls(a['body']):
+            if cname(c) == 'for_each' and len(c.get('args', [])) == 3 and rel.functor(c['args'][2]):
+                a0 = strip_casts(c['args'][0])
+                if isinstance(a0, dict) and a0.get('k') == 'MCall' and a0.get('n') in ('begin', 'rbegin'):
+                    a0 = a0.get('obj')
+                rr = root_ref(a0)
+                if rr is not None and rr.get('d') == 'param':
+                    idx = [i for i, p in enumerate(a['params']) if p.get('id') == rr.get('id')]
+                    if idx:
+                        releasing_params[a['usr']] = idx[0]
+    for k, a, flow in touched:
+        fn = strip_t(short(facts.name[k]))
+        for c in calls(a['body']):
+            if c.get('usr') in releasing_params and len(c.get('args', [])) > releasing_params[c['usr']]:
+                o = strip_casts(c['args'][releasing_params[c['usr']]])
+                if isinstance(o, dict) and o.get('k') == 'Member' and is_ptr_cont(o.get('ty')):
+                    own[field_of(o)].add('%s: %s' % (fn, pp(c)[:70]))
+    # a container whose elements are moved into an owning container is owning, too (the pending attributes go to the cache of entries)
+    moves = []
+    for k, a, flow in touched:
+        fn = strip_t(short(facts.name[k]))
+        for c in calls(a['body']):
+            if c.get('k') == 'MCall' and cname(c) in PUSH and c.get('args'):
+                o = strip_casts(c.get('obj'))
+                if isinstance(o, dict) and o.get('k') == 'Member' and is_ptr_cont(o.get('ty')):
+                    src = set()
+                    for e in c['args']:
+                        src |= flow.reads(e)
+                    src.discard(field_of(o))
+                    if src:
+                        moves.append((field_of(o), src, '%s: %s' % (fn, pp(c)[:70])))
+    discover.moves = moves
+    changed = True
+    while changed:
+        changed = False
+        for tgt, src, ev in moves:
+            if tgt in own:
+                for m in src:
+                    if m not in own:
+                        own[m].add('elements are moved into the owning %s (%s)' % (tgt.split('::')[-1], ev)); changed = True
     return own, touched
 
 
@@ -502,7 +545,16 @@ def run_rules(res, facts, tier):
             evidence = sorted(own[f])[0][:90]
             if nm == 'clear':
                 earlier = [1 for nid, evs in events.items() for kd, s, nd in evs if f in s and kd in ('release', 'release_all', 'swap', 'transfer') and (nd.get('l') or 0) <= (c.get('l') or 0)]
-                srcs = allocator_sources(facts, touched, f)
+                srcs = set(allocator_sources(facts, touched, f))
+                # elements that reach this container from another one (or go on to another one) come from that container's allocator
+                rel_f, grew = {f}, True
+                while grew:
+                    grew = False
+                    for tgt, src, _ in getattr(discover, 'moves', []):
+                        if (tgt in rel_f or src & rel_f) and not ({tgt} | src) <= rel_f:
+                            rel_f |= {tgt} | src; grew = True
+                for f2 in rel_f - {f}:
+                    srcs |= set(allocator_sources(facts, touched, f2))
                 arena = [cc for cc in calls(a['body']) if cc.get('k') == 'MCall' and cname(cc) in ('reset', 'clear') and isinstance(strip_casts(cc.get('obj')), dict) and strip_casts(cc['obj']).get('k') == 'Member' and strip_casts(cc['obj'])['m'] in srcs]
                 if earlier:
                     r6.ok(site, 'release-all: elements released / handed over before the clear')
@@ -720,4 +772,76 @@ def r9_destruct_only(res, facts):
                             'stays with the MemoryManager for ever' % (pp(c)[:40], t), common.file_line(a, c))
     if n == 0:
         raise AnalysisBroken('no destruct-only site found outside the container layer (StylesheetExecutionContextDefault::returnXResultTreeFrag expected)')
+    return r
+
+
+# ----------------------------------------------------------------------------------------------- R13: a slot of an owning container is not overwritten
+def r13_slot_stores(res, facts, own=None, touched=None, rel=None):
+    """An owning container of raw pointers holds the only reference to each element.  Assigning to a slot - through an iterator (*i = p), an index (v[n] = p), back() /
+    front() - replaces that reference: the element that was there must have been released, or handed on (pushed elsewhere, returned, stored in a member), in the same
+    function before the store; a slot that was just created (push_back(0) / resize, then back() = p) holds nothing.  Maps are C19-R7's."""
+    r = res.rule('C19-R13', 'a slot of an owning pointer container (vector / deque / list; derived as in C19-R6) is assigned only after the pointer it held has been released or handed on '
+                 'in the same function, or when the slot was created empty just before: otherwise the old element can never be given back to the manager', floor=3)
+    if own is None:
+        rel = Releasers(facts)
+        own, touched = discover(facts, rel)
+    n = 0
+    for k, a, flow in touched:
+        fn = strip_t(short(facts.name[k]))
+        stores = []
+        for x in walk(a['body']):
+            lhs = rhs = None
+            if x.get('k') == 'Bin' and x.get('op') == '=':
+                lhs, rhs = strip_casts(x['lhs']), x['rhs']
+            elif x.get('k') == 'OpCall' and x.get('op') == '=' and len(x.get('args', [])) == 2:
+                lhs, rhs = strip_casts(x['args'][0]), x['args'][1]
+            if not isinstance(lhs, dict):
+                continue
+            flds = set()
+            how = None
+            if (lhs.get('k') == 'Un' and lhs.get('op') == '*') or (lhs.get('k') == 'OpCall' and lhs.get('op') == '*' and len(lhs.get('args', [])) == 1):
+                it = strip_casts(lhs.get('e') if lhs.get('k') == 'Un' else lhs['args'][0])
+                if isinstance(it, dict) and it.get('k') == 'Ref' and it.get('d') == 'local' and ('terator' in (it.get('ty') or '') or '*' in (it.get('ty') or '')):
+                    flds = {f for f in flow.derived.get(it['id'], set())}
+                    how = '*%s' % it.get('n')
+            elif lhs.get('k') == 'OpCall' and lhs.get('op') == '[]' and lhs.get('args'):
+                base = strip_casts(lhs['args'][0])
+                if isinstance(base, dict) and base.get('k') == 'Member' and is_ptr_cont(base.get('ty')) and 'XalanMap<' not in (base.get('ty') or ''):
+                    flds = {field_of(base)}; how = '%s[...]' % base['m']
+            elif lhs.get('k') == 'MCall' and lhs.get('n') in ('back', 'front'):
+                base = strip_casts(lhs.get('obj'))
+                if isinstance(base, dict) and base.get('k') == 'Member' and is_ptr_cont(base.get('ty')):
+                    flds = {field_of(base)}; how = '%s.%s()' % (base['m'], lhs['n'])
+            flds = {f for f in flds if f in own}
+            if not flds or 'XalanMap<' in (lhs.get('ty') or ''):
+                continue
+            # the type stored must be a pointer (an iterator over a map yields pairs: R7's)
+            if not (lhs.get('ty') or '').rstrip().endswith('*') and '*' not in (lhs.get('ty') or ''):
+                continue
+            stores.append((x, lhs, rhs, flds, how))
+        if not stores:
+            continue
+        evs = stmt_events(flow, rel, a['body'])
+        for x, lhs, rhs, flds, how in stores:
+            n += 1
+            site = '%s: %s = ...' % (fn, how)
+            line = x.get('l') or 0
+            # values moved within the container (a rotation, a compaction) drop nothing
+            if flow.reads(rhs) & flds:
+                r.ok(site, 'the value stored was read from the same container')
+                continue
+            before = [e for e in evs if e[0] in ('release', 'transfer', 'release_all', 'swap') and (e[1] & flds) and ((e[2].get('l') or 0) <= line)]
+            created = [c for c in calls(a['body']) if c.get('k') == 'MCall' and cname(c) in ('push_back', 'resize', 'push_front') and (c.get('l') or 0) <= line and
+                       isinstance(strip_casts(c.get('obj')), dict) and strip_casts(c['obj']).get('k') == 'Member' and field_of(strip_casts(c['obj'])) in flds and
+                       (cname(c) == 'resize' or (c.get('args') and (strip_casts(c['args'][0]) or {}).get('cv') == 0))]
+            if before:
+                r.ok(site, 'the element that was there is released / handed on first (%s)' % pp(before[0][2])[:60])
+            elif created:
+                r.ok(site, 'the slot was created empty just before (%s)' % pp(created[0])[:60])
+            else:
+                r.violation('%s: a slot of the owning container %s is overwritten' % (fn, '/'.join(sorted(f.split('::')[-1] for f in flds))),
+                            '%s = %s replaces the pointer the container held; nothing in this function releases it or hands it on before: the old element (allocated from the manager) is '
+                            'unreachable and never given back' % (how, pp(rhs)[:50]), common.file_line(a, x))
+    if n < 3:
+        raise AnalysisBroken('C19-R13: only %d slot stores into owning containers found' % n)
     return r
